@@ -125,7 +125,7 @@ func TestVerifC12(t *testing.T) {
 			defer rec.Flush()
 			rec.Rule("distinct (entry point, mutated field, value class) triples executed; every case = one input driven through all steps of its entry point in a child process")
 			r := &c12kit.Runner{Rec: rec, Group: g, FixDir: fix, Spawn: c12kit.SelfSpawn(c12ChildTest),
-				ChildTimeout: time.Duration(ev.Pick(10, 40)) * time.Minute, HangSecs: ev.Pick(60, 180), ReadLimit: 2_000_000}
+				ChildTimeout: time.Duration(ev.Pick(10, 40)) * time.Minute, HangSecs: ev.Pick(60, 180), ReadLimit: 500_000}
 			r.Run()
 			rec.Note("steps_returned_ok", r.OKSteps)
 			rec.Note("steps_returned_error", r.ErrStep)
